@@ -306,6 +306,21 @@ def _run(prop, tier, seed, replay, rep, vh, work):
         if "DRIFT_SnapshotMismatch" in v["viol"]:
             rep.drift.append("spec=SchedObserve run=%s status written outside the hooked setters" % v["run"])
 
+    # ---- 6. (C05 only) the same property on real processes: the real binary, the real `stop` command, shell children
+    if prop == "C05" and not replay:
+        import record_checks as rc
+        binary = vp.build_binary(os.path.join(work, "blackdagger"))
+        srec = os.path.join(work, "stop.ndjson")
+        rc.run_vh(vh, ["agentlife", "-bin", binary, "-mode", "stop", "-out", srec], env=dict(vp.GOENV, TMPDIR=work), timeout=600)
+        sverdicts, sconsumed = rc.observe_records(work, "AgentLifeObserve", srec, nchunks=1)
+        for v in sverdicts:
+            r = v["rec"]
+            for c in v["viol"]:
+                if c == "INFRA":
+                    raise Infra("real stop run %s: %s" % (r["variant"], r["infra"]))
+                rep.violation({"clause": c, "variant": r["variant"], "realProcess": True}, {"real_stop_run": r})
+        rep.cov["real_process_stop_runs"] = [json.loads(l) for l in open(srec)]
+
     if consumed == 0 or not verdicts:
         raise Infra("no trace was validated")
     samples = []
